@@ -103,7 +103,7 @@ def run(F, R, tier):
                 if ak.startswith("ptr"):
                     continue
                 counts["assert"] += 1
-                descr = " ".join(f.describe(o) for o in t["ops"])
+                descr = " ".join(f.stable_describe(o) for o in t["ops"])
                 key = ukey("%s:%s:%s" % (fn, ak, descr))
                 st = block_state(f, bi)
                 if st is None:
@@ -189,7 +189,7 @@ def run(F, R, tier):
         fn = short(f.path)
         name = M.strip_generics(path).rsplit("::", 1)[-1]
         pi = param_of(f, st, o)
-        key = ukey("%s:alloc:%s(%s)" % (fn, name, f.describe(o)))
+        key = ukey("%s:alloc:%s(%s)" % (fn, name, f.stable_describe(o)))
         if small_or_phys(v):
             R.inst("R16.3", key, True, sp=norm_sp(f.blocks[bi]["t"]["sp"]), detail="size %s" % M.show(v))
         elif pi is not None and not f.is_closure:
@@ -225,7 +225,7 @@ def run(F, R, tier):
                     continue
                 o = t["args"][pi]
                 v = f.operand(st, o)[0]
-                key = ukey("%s:alloc-arg:%s(%s)" % (short(f.path), callee.path.rsplit("::", 1)[-1], f.describe(o)))
+                key = ukey("%s:alloc-arg:%s(%s)" % (short(f.path), callee.path.rsplit("::", 1)[-1], f.stable_describe(o)))
                 counts["alloc"] += 1
                 if small_or_phys(v):
                     R.inst("R16.3", key, True, sp=norm_sp(t["sp"]), detail="size %s" % M.show(v))
@@ -384,7 +384,7 @@ def panic_what(f, t, name, path):
             msg = re.sub(r"[^A-Za-z0-9 _:!<>=.-]", "", msg)[:40].strip()
             return "%s!(%s)" % (tag, msg)
         return "%s!" % tag
-    args = ", ".join(f.describe(a) for a in t["args"][:3])
+    args = ", ".join(f.stable_describe(a) for a in t["args"][:3])
     return "%s(%s)" % (name, args)
 
 
